@@ -529,6 +529,31 @@ def history(ctx, items, results):
     return extra
 
 
+NAMED = [('case.base.out', 'Gradient 1, 50\nReservoir Depth, 3\n'), ('case.deep.out', 'Gradient 1, 65\nReservoir Depth, 4\n'), ('case.out', 'Gradient 1, 40\nReservoir Depth, 2.5\n')]
+NAMED_COMMON = ('Reservoir Model, 4\nDrawdown Parameter, 0.005\nEnd-Use Option, 1\nPower Plant Type, 1\nPlant Lifetime, 5\nEconomic Model, 1\n'
+                'Fixed Charge Rate, 0.07\nPrint Output to Console, 0\n')
+
+
+def named_reports(ctx, uv):
+    """several reports with dotted names in ONE directory: each has its own <stem>.json (where the client looks for it)
+    carrying that report's quantities -> figures for json_agrees"""
+    runs = [(NAMED_COMMON + extra, name) for name, extra in NAMED]
+    cmp = []
+    for (text, name), r in zip(runs, R.named_runs(ctx, runs)):
+        inp = {'id': 'named/' + name, 'text': r['report'] or '', 'named': [list(x) for x in runs], 'name': name}
+        if r['report'] is None or r['json'] is None:
+            ctx.violate('property', f'json:file-missing:{name}', f'after simulating {[n for _, n in runs]} into one directory the report {name} has no '
+                        f'{r["json_name"]} next to it (files: {r["files"]}; run error: {r["error"]})', inp=inp, expected=r['json_name'], observed=r['files'])
+            continue
+        it = {'id': 'named/' + name, 'text': r['report'], 'json': r['json'], 'snap': None, 'input': text, 'named_inp': inp}
+        out, c = json_oracle(it, uv)
+        for key, what, exp, obs in out:
+            ctx.violate('property', key, f'{what} [named/{name}]', inp=inp, expected=exp, observed=obs)
+        cmp += [(it, x) for x in c]
+    ctx.count('named reports in one directory', evaluations=len(runs), files=len(runs))
+    return cmp
+
+
 def correspondence(ctx, proofs_ok=True):
     import time
     t0 = time.time()
@@ -580,12 +605,13 @@ def correspondence(ctx, proofs_ok=True):
             sigs.add((it['origin'], hashlib.md5('|'.join(sorted(set(filled))).encode()).hexdigest()[:10], tuple(k in res['result'] for k in TABLE_KEYS)))
     # the rounding relation between a .json quantity and the printed figure is decided by Coq (json_agrees)
     from fractions import Fraction
+    jcmp += named_reports(ctx, uv)
     njson = len(jcmp)
     bad = fw.kernel_bools(ctx, 'json', ['Model.ResultParser'],
                           [f'json_agrees {qconv.q(Fraction(c[3]))} {R.CS(c[2])}' for _, c in jcmp], open_scope='string_scope')
     for i in bad:
         it, (key, what, tok, jv) = jcmp[i]
-        ctx.violate('property', key, f'{what} [{it["id"]}]', inp={'id': it['id'], 'text': it['text'], 'input': it.get('input')},
+        ctx.violate('property', key, f'{what} [{it["id"]}]', inp=it.get('named_inp') or {'id': it['id'], 'text': it['text'], 'input': it.get('input')},
                     expected=tok, observed=jv)
     ctx.count('client-vs-tokenisation', evaluations=nfields + ncells + njson, nontrivial_keys=sigs,
               origin={o: sum(1 for i in items if i['origin'] == o) for o in ('corpus', 'stored', 'run', 'synthetic')})
@@ -652,6 +678,23 @@ def search(ctx):
 def replay(ctx, data):
     fields, heads, names = c10_tables.client_tables()
     inp = data['input']
+    if inp.get('named'):
+        from fractions import Fraction
+        runs = [tuple(x) for x in inp['named']]
+        bad = 0
+        for (text, name), r in zip(runs, R.named_runs(ctx, runs)):
+            if r['report'] is None or r['json'] is None:
+                print(f'{name}: no {r["json_name"]} next to the report; files in the directory: {r["files"]}')
+                bad += 1
+                continue
+            out, c = json_oracle({'id': name, 'text': r['report'], 'json': r['json'], 'snap': None}, unit_values())
+            badj = fw.kernel_bools(ctx, 'json', ['Model.ResultParser'], [f'json_agrees {qconv.q(Fraction(x[3]))} {R.CS(x[2])}' for x in c], open_scope='string_scope')
+            for x in out + [c[i] for i in badj]:
+                print(f'{name}: {x[1]}: report {x[2]}, {r["json_name"]} {x[3]}')
+            print(f'{name}: {len(c)} figures compared with {r["json_name"]}, {len(out) + len(badj)} differ')
+            bad += len(out) + len(badj)
+        print('property', 'VIOLATED' if bad else 'holds', 'on this input')
+        return 1 if bad else 0
     if inp.get('history'):
         prev, cur = inp['history']
         hist = R.history_parse(ctx, ([prev] if prev is not None else []) + [cur])[-1]
